@@ -230,7 +230,7 @@ fn main() {
     }
 
     // quick: all histories of <= 2 operations from all bases, plus 3 operations
-    // from the committed full base b7c at dim 2, layer seed 1; thorough: <= 3 operations
+    // from the committed full base b7c at dim 2 (Euclidean, Cosine), layer seed 1; thorough: <= 3 operations
     // with layer seeds {1,2}, 4 operations from {b4, b7c} at dim 2 with seed 1.
     let cfgs = all_cfgs(&[2, 8], false);
     let all = vec!["empty", "b4", "b7c"];
@@ -259,7 +259,14 @@ fn main() {
             run.cap_hit(&format!("time budget: histories of {depth} operations not started"));
             break;
         }
-        let cs: Vec<Cfg> = cfgs.iter().filter(|c| dims.contains(&c.dim)).cloned().collect();
+        // quick, 3 operations: Euclidean and Cosine only (all four metrics up to 2 operations)
+        let quick_deep = run.tier == vcore::Tier::Quick && depth == 3;
+        let cs: Vec<Cfg> = cfgs
+            .iter()
+            .filter(|c| dims.contains(&c.dim))
+            .filter(|c| !quick_deep || matches!(c.metric, anda_db_hnsw::DistanceMetric::Euclidean | anda_db_hnsw::DistanceMetric::Cosine))
+            .cloned()
+            .collect();
         let work = items(&cs, &bases, &seeds, depth);
         let deadline = Instant::now() + std::time::Duration::from_secs_f64(run.remaining_s());
         let aggs: Vec<Agg> = util::par_map(work, util::n_threads(), |item| run_item(&item, deadline));
@@ -290,7 +297,7 @@ fn main() {
         }
         run.set("max_flush_writes", json!(max_journal));
         if complete {
-            completed.push(format!("{depth} ops then the interrupted flush: bases {bases:?}, dims {dims:?}, layer seeds {seeds:?}"));
+            completed.push(format!("{depth} ops then the interrupted flush: bases {bases:?}, dims {dims:?}, {} configurations, layer seeds {seeds:?}", cs.len()));
         } else {
             run.cap_hit(&format!("time budget: histories of {depth} operations not completed"));
             break;
